@@ -19,7 +19,7 @@ EXHAUSTIVE = {"quick": "every ordered tree shape with <=5 nodes x every single t
 MODELLED = ["tree.copy() is the identity on Model-B values (freshness of the copy is C07's Model-A part and the uid/identity check of this harness)",
             "Python sets of node objects are lists of addresses in the copied tree",
             "a BinaryNode tree is a rose tree whose nodes carry their slot index as an attribute; `del children`/`parent = None` leave the other slots in place"]
-ASSUMPTIONS = ["prune_tree is called on a root node (the statement speaks of routes from the root)",
+ASSUMPTIONS = ["prune_tree is called on a root node (the statement speaks of routes from the root); on a non-root start the code returns a node that is still attached to a pruned copy of the whole tree - not claimed, not generated",
                "target sets are non-nested and every path is unambiguous (the docstring's 'prune path name should be unique')",
                "names contain neither the tree separator nor the call's `sep`"]
 
